@@ -458,6 +458,38 @@ func ruleLegacyMatch(c *Ctx, r *Rule) {
 			}
 		}
 		r.Ob(nEarly >= 1 && nEnd == 1, name+"|shape", fn.Pos(), fmt.Sprintf("%d deciding returns and %d final return", nEarly, nEnd))
+		// every condition is examined: the loop over the conditions is left from its body only by a deciding return
+		var head *ssa.BasicBlock
+		for _, b := range fn.Blocks {
+			for _, p := range b.Preds {
+				if isBackEdge(p, b) {
+					head = b
+				}
+			}
+		}
+		if head == nil {
+			r.Ob(false, name+"|examines-every-condition", fn.Pos(), "the conditions are examined in a loop")
+		} else {
+			early2 := false
+			for _, b := range fn.Blocks {
+				if b == head || !pathWithin(head, b) {
+					continue
+				}
+				for _, sc := range b.Succs {
+					if sc == head || pathWithin(head, sc) {
+						continue
+					}
+					// leaving the loop from its body: only straight into a deciding return
+					if ret, isRet := asReturn(sc); isRet {
+						if k, isK := constBool(retResults(ret)[0]); isK && k == early {
+							continue
+						}
+					}
+					early2 = true
+				}
+			}
+			r.Ob(!early2, name+"|examines-every-condition", fn.Pos(), fmt.Sprintf("the loop over the conditions is left early only with the deciding verdict '%v': a condition that does not decide never stops the examination of the remaining ones (the verdict must not depend on the order of the conditions)", early))
+		}
 	}
 	check(or, true)
 	check(and, false)
